@@ -52,6 +52,16 @@ func (cw *CodeWriter) WriteSemi() {
 	}
 }
 
+// lastByte returns the last byte of the output written so far
+// (0 if nothing was written yet or whitespace is pending).
+func (cw *CodeWriter) lastByte() byte {
+	if len(cw.pendings) > 0 || cw.Builder.Len() == 0 {
+		return 0
+	}
+	s := cw.Builder.String()
+	return s[len(s)-1]
+}
+
 // String returns the accumulated string
 func (cw *CodeWriter) String() string {
 	return cw.Builder.String()
